@@ -28,29 +28,38 @@
 EXTENDS Naturals, Sequences, FiniteSets, TLC, VerifIO
 
 CONSTANTS MaxChunks, Kinds, Variants,
-          FuncExprIsDecl   \* dialect switch of CODE: TRUE = today's isFuncDecl (only `func (...) {` is a
-                           \* literal); FALSE = after fixes/C24-funclit-result.diff
+          FuncExprIsDecl,  \* dialect switches of CODE (one per repair, so the model follows the code either way)
+                           \*   TRUE = isFuncDecl before fixes/C24-funclit-result.diff (only `func (...) {` is a
+                           \*   literal); FALSE = after it (committed as 10d0eaa)
+          ParenIsNesting,  \*   FALSE = splitStmts counts only braces; TRUE = after fixes/C24-paren-group.diff
+          ImportIsDecl,    \*   FALSE = isDecl knows const/type/var/func only; TRUE = after fixes/C24-import-decl.diff
+                           \*   (package and import are declarations)
+          TrailingCommentStays  \* FALSE = a trailing comment is the first word of the next statement;
+                           \*   TRUE = after fixes/C24-trailing-comment.diff (attachTrailingComments)
 
-AllKinds == {"import", "var", "type", "vargroup", "func", "method", "opmethod", "stmt", "block",
+AllKinds == {"package", "import", "var", "type", "vargroup", "func", "method", "opmethod", "stmt", "block",
              "flit", "flitres", "conv"}
 AllVariants == {"plain", "lead", "trail", "inner", "blank"}
 ASSUME Kinds \subseteq AllKinds /\ Variants \subseteq AllVariants
 
 \* statement-level classification (the property's): declarations and function declarations
-DeclKind == {"import", "var", "type", "vargroup", "func", "method", "opmethod"}
+DeclKind == {"package", "import", "var", "type", "vargroup", "func", "method", "opmethod"}
 FuncKind == {"func", "method", "opmethod"}
 
 \* line: a indent, b code, k trailing comment, d brace delta, semi: scanner inserts ";" at the line
 \* end, tok: class of the first token, cfd: isFuncDecl's answer for `func ...` lines
-L(a, b, d, semi, tok, cfd) == [a |-> a, b |-> b, k |-> "", d |-> d, semi |-> semi, tok |-> tok, cfd |-> cfd]
+L(a, b, d, semi, tok, cfd) == [a |-> a, b |-> b, k |-> "", d |-> d, semi |-> semi, tok |-> tok, cfd |-> cfd, po |-> 0, pc |-> 0]
+\* po / pc: the line opens / closes a parenthesis that stays open across lines
+LP(l, po, pc) == [l EXCEPT !.po = po, !.pc = pc]
 Tmpl(kind) ==
-  CASE kind = "import"   -> << L("", "import \"p#\"", 0, TRUE, "import", FALSE) >>
+  CASE kind = "package"  -> << L("", "package main", 0, TRUE, "package", FALSE) >>
+    [] kind = "import"   -> << L("", "import \"p#\"", 0, TRUE, "import", FALSE) >>
     [] kind = "var"      -> << L("", "var v# = #", 0, TRUE, "var", FALSE) >>
     [] kind = "type"     -> << L("", "type T# int", 0, TRUE, "type", FALSE) >>
-    [] kind = "vargroup" -> << L("", "var (", 0, FALSE, "var", FALSE),
+    [] kind = "vargroup" -> << LP(L("", "var (", 0, FALSE, "var", FALSE), 1, 0),
                                L("\t", "g# = #", 0, TRUE, "other", FALSE),
                                L("\t", "h# = #", 0, TRUE, "other", FALSE),
-                               L("", ")", 0, TRUE, "other", FALSE) >>
+                               LP(L("", ")", 0, TRUE, "other", FALSE), 0, 1) >>
     [] kind = "func"     -> << L("", "func f#() {", 1, FALSE, "func", TRUE),
                                L("\t", "echo #", 0, TRUE, "other", FALSE),
                                L("", "}", 0, TRUE, "close", FALSE) >>
@@ -76,8 +85,8 @@ Tmpl(kind) ==
 \* a "close" line starts with "}": one brace level is closed before the d braces it opens
 IsNeg(l) == l.tok = "close"
 
-CmtLine(txt) == [a |-> "", b |-> "", k |-> txt, d |-> 0, semi |-> FALSE, tok |-> "none", cfd |-> FALSE]
-BlankLine    == [a |-> "", b |-> "", k |-> "", d |-> 0, semi |-> FALSE, tok |-> "none", cfd |-> FALSE]
+CmtLine(txt) == [a |-> "", b |-> "", k |-> txt, d |-> 0, semi |-> FALSE, tok |-> "none", cfd |-> FALSE, po |-> 0, pc |-> 0]
+BlankLine    == [a |-> "", b |-> "", k |-> "", d |-> 0, semi |-> FALSE, tok |-> "none", cfd |-> FALSE, po |-> 0, pc |-> 0]
 Render(kind, v) ==
   LET t == Tmpl(kind) n == Len(t) IN
   CASE v = "plain" -> t
@@ -94,7 +103,9 @@ Concat(ss) == IF ss = <<>> THEN <<>> ELSE ss[1] \o Concat(Tail(ss))
 \* Atoms: the script as a sequence of text pieces, each owned by a chunk.
 \* w = "B" code text of a line (a word start; carries the line's attributes), "K" comment (a word),
 \* "-" white space / newline.
-Atom(s, c, w, l) == [s |-> s, c |-> c, w |-> w, d |-> l.d, semi |-> l.semi, tok |-> l.tok, cfd |-> l.cfd]
+\* trail: a comment that follows code on its line
+Atom(s, c, w, l) == [s |-> s, c |-> c, w |-> w, d |-> l.d, semi |-> l.semi, tok |-> l.tok, cfd |-> l.cfd,
+                     po |-> l.po, pc |-> l.pc, trail |-> (w = "K" /\ l.b # "")]
 LineAtoms(l, c) ==
      (IF l.a # "" THEN <<Atom(l.a, c, "-", l)>> ELSE <<>>)
   \o (IF l.b # "" THEN <<Atom(l.b, c, "B", l)>> ELSE <<>>)
@@ -123,8 +134,9 @@ RECURSIVE WordsOf(_, _)
 WordsOf(as, i) == IF i > Len(as) THEN <<>>
                   ELSE (IF as[i].w # "-" THEN <<i>> ELSE <<>>) \o WordsOf(as, i + 1)
 
-\* imports can only lead a script
-ImportsFirst(sc) == \A i \in 1..Len(sc) : sc[i].kind = "import" => \A j \in 1..i : sc[j].kind = "import"
+\* a package clause can only be the first chunk, imports can only follow it or lead the script
+ImportsFirst(sc) == /\ \A i \in 1..Len(sc) : sc[i].kind = "package" => i = 1
+                    /\ \A i \in 1..Len(sc) : sc[i].kind = "import" => \A j \in 1..i : sc[j].kind \in {"package", "import"}
 Scripts == UNION {[1..n -> [kind : Kinds, v : Variants]] : n \in 1..MaxChunks}
 EmptyStmt == [first |-> 0, tok |-> "none", cfd |-> FALSE]
 
@@ -138,11 +150,20 @@ Init == \E sc \in Scripts :
 At == atoms[words[wi]]
 AddWord(w) == IF cur.first = 0 THEN [first |-> words[wi], tok |-> w.tok, cfd |-> w.cfd]
               ELSE IF cur.tok = "none" THEN [cur EXCEPT !.tok = w.tok, !.cfd = w.cfd] ELSE cur
-LevelAfter(l) == IF IsNeg(l) THEN level - 1 + l.d ELSE level + l.d
+\* braces always nest; parentheses only under ParenIsNesting
+LevelAfter(l) == (level + l.d + (IF ParenIsNesting THEN l.po ELSE 0))
+                 - ((IF IsNeg(l) THEN 1 ELSE 0) + (IF ParenIsNesting THEN l.pc ELSE 0))
 \* a comment word: stmt.words = append(stmt.words, ...); tokOf skips it
 ScanComment == /\ pc = "split" /\ wi <= Len(words) /\ At.w = "K"
+               /\ ~(TrailingCommentStays /\ At.trail /\ cur.first = 0)
                /\ cur' = AddWord([tok |-> "none", cfd |-> FALSE])
                /\ wi' = wi + 1 /\ UNCHANGED <<script, atoms, words, level, stmts, first, ri, out, pc>>
+\* attachTrailingComments: a comment on the line on which the last statement ended goes back to that
+\* statement (whose chunk runs to the first word of the next one anyway), it does not open a new one
+ScanTrailingComment == /\ pc = "split" /\ wi <= Len(words) /\ At.w = "K"
+                       /\ TrailingCommentStays /\ At.trail /\ cur.first = 0
+                       /\ wi' = wi + 1
+                       /\ UNCHANGED <<script, atoms, words, level, cur, stmts, first, ri, out, pc>>
 \* code words of a line; no ";" follows, or it follows inside braces
 ScanCode == /\ pc = "split" /\ wi <= Len(words) /\ At.w = "B"
             /\ ~(At.semi /\ LevelAfter(At) = 0)
@@ -159,7 +180,8 @@ ScanEOF == /\ pc = "split" /\ wi > Len(words) /\ pc' = "first"
 
 \* ---- classification by the code
 CodeFuncDecl(s) == s.tok = "func" /\ s.cfd
-CodeDecl(s)     == s.tok \in {"var", "type", "const"} \/ CodeFuncDecl(s)
+CodeDecl(s)     == \/ s.tok \in {"var", "type", "const"} \/ CodeFuncDecl(s)
+                   \/ ImportIsDecl /\ s.tok \in {"package", "import"}
 FirstNonDecl == /\ pc = "first"
                 /\ LET nd == {i \in 1..Len(stmts) : ~CodeDecl(stmts[i])} IN
                    IF nd = {} THEN first' = 0 /\ pc' = "done" /\ ri' = ri
@@ -181,7 +203,7 @@ PassOther == /\ pc = "others" /\ ri <= Len(stmts) /\ CodeFuncDecl(stmts[ri])
              /\ ri' = ri + 1 /\ UNCHANGED <<script, atoms, words, wi, level, cur, stmts, first, out, pc>>
 Finish == /\ pc = "others" /\ ri > Len(stmts) /\ pc' = "done"
           /\ UNCHANGED <<script, atoms, words, wi, level, cur, stmts, first, ri, out>>
-Next == ScanComment \/ ScanCode \/ ScanCodeEndStmt \/ ScanEOF \/ FirstNonDecl
+Next == ScanComment \/ ScanTrailingComment \/ ScanCode \/ ScanCodeEndStmt \/ ScanEOF \/ FirstNonDecl
         \/ EmitFunc \/ PassFunc \/ NextLoop \/ EmitOther \/ PassOther \/ Finish
 Spec == Init /\ [][Next]_vars /\ WF_vars(Next)
 
@@ -219,9 +241,11 @@ CodeKeepsBytes == Done => /\ Len(CodeOut) = Len(atoms)
 \* splitStmts never leaves a brace level open on these scripts, and finds at least one statement per chunk
 SplitSane == Done => level = 0 /\ Len(stmts) >= N
 \* where none of the four deviations is triggered, CODE = WANT (chunk = its comment line + its lines)
-Trigger == \/ \E i \in 1..N : script[i].kind \in {"import", "vargroup"}
+Trigger == \/ ~ImportIsDecl /\ \E i \in 1..N : script[i].kind \in {"package", "import"}
+           \/ ~ParenIsNesting /\ \E i \in 1..N : script[i].kind = "vargroup"
            \/ FuncExprIsDecl /\ \E i \in 1..N : script[i].kind \in {"flitres", "conv"}
-           \/ \E i \in 1..N : script[i].v \in {"trail", "blank"}
+           \/ ~TrailingCommentStays /\ \E i \in 1..N : script[i].v = "trail"
+           \/ \E i \in 1..N : script[i].v = "blank"     \* a blank line travels with the chunk before it (not pinned)
 WantAtoms == Concat([p \in 1..N |-> LET c == WantOrder[p] IN
                        LET idx == {a \in 1..Len(atoms) : atoms[a].c = c}
                            lo == CHOOSE a \in idx : \A b \in idx : a <= b
